@@ -284,6 +284,16 @@ pub fn scenarios(thorough: bool) -> Vec<Scenario> {
             }
         }
     }
+    // a single sequential producer with the monitor / lease ticks as events (the monitor
+    // proposes rollovers of its own, with the count it read before its proposal applies)
+    {
+        let p = |s: &str| s.to_string();
+        for nodes in if thorough { vec![1usize, 2] } else { vec![1usize] } {
+            for threshold in if thorough { vec![1u64, 2] } else { vec![1u64] } {
+                v.push(Scenario { name: format!("n{}/th{}/P3+G/ticks", nodes, threshold), nodes, threshold, producers: vec![(0, vec![p("a1"), p("a2"), p("a3")])], consumers: vec![(nodes - 1, 2)], ticks: true, eager: false });
+            }
+        }
+    }
     if !thorough {
         // the quick tier's only three-node scenario: the producer's node, the segment owner
         // and the Raft leader are three different nodes, so a stale key can be forwarded to an
